@@ -7,6 +7,7 @@ from ..model import own_nodes, AnalysisError
 from ..paths import factmap, call_text, returns
 from ..absval import EnumEval
 from .c04 import who_calls
+from . import shared
 
 # frozen from the statement: strategy -> (class, selection spec)
 SPEC = {
@@ -152,6 +153,8 @@ def run(P, R):
     R.check(r2, ok, 'the instance load includes the starts already requested there', 'selection|instance-load', u.loc(),
             'is_loading_valid computes instance_loading as %s' % defs.get('instance_loading'))
 
+    shared.pending_per_node(P, R, r2)
+
     # ---------------------------------------------------------------- R3
     r3 = R.rule('R3', 'argument provenance', 'every placement passes a load-request map obtained from a '
                 'get_load_requests() (pending starts are part of the load); the strategy used is the one requested for '
@@ -278,4 +281,6 @@ def run(P, R):
             'distribution|single-node', sn.loc(), 'distribute_to_single_node does not restrict self.identifiers to the '
             'application node candidates of the node chosen by get_node for the whole load (%s)' %
             {k: defs.get(k) for k in ('node_identifiers', 'self.identifiers')})
+    shared.application_candidates(P, R, r4)
+    shared.enum_classes(P, R, r4, only=('starting_strategy', 'distribution'))
     R.assume('Optimality over numeric load tables is NOT decided; only the ordering structure of each strategy.')
